@@ -66,6 +66,10 @@ type BundlePart struct {
 
 	FragmentOffset  uint64
 	TotalDataLength uint64
+
+	// PayloadLength is the length of this part's payload. Two fragments are only the same if they do not only start
+	// at the same FragmentOffset, but are also of the same length.
+	PayloadLength uint64
 }
 
 // storeBundle serializes the Bundle of a BundleItem/BundlePart to the disk.
@@ -100,8 +104,14 @@ func calcExpirationDate(b bpv7.Bundle) time.Time {
 }
 
 // bundlePartPath returns a path for a Bundle.
-func bundlePartPath(id bpv7.BundleID, storagePath string) string {
-	f := fmt.Sprintf("%x", sha256.Sum256([]byte(id.String())))
+func bundlePartPath(id bpv7.BundleID, payloadLength uint64, storagePath string) string {
+	name := id.String()
+	if id.IsFragment {
+		// Fragments of different lengths might share an offset, e.g., when fragmented differently on two paths.
+		name = fmt.Sprintf("%s-%d", name, payloadLength)
+	}
+
+	f := fmt.Sprintf("%x", sha256.Sum256([]byte(name)))
 	return path.Join(storagePath, f)
 }
 
@@ -121,11 +131,17 @@ func newBundleItem(b bpv7.Bundle, storagePath string) (bi BundleItem) {
 		Properties: make(map[string]interface{}),
 	}
 
+	var payloadLength uint64
+	if payloadBlock, err := b.PayloadBlock(); err == nil {
+		payloadLength = uint64(len(payloadBlock.Value.(*bpv7.PayloadBlock).Data()))
+	}
+
 	bp := BundlePart{
-		Filename: bundlePartPath(bid, storagePath),
+		Filename: bundlePartPath(bid, payloadLength, storagePath),
 
 		FragmentOffset:  bid.FragmentOffset,
 		TotalDataLength: bid.TotalDataLength,
+		PayloadLength:   payloadLength,
 	}
 
 	bi.Parts = append(bi.Parts, bp)
